@@ -781,8 +781,116 @@ fn with_plain(cases: &[Case], every: usize) -> Vec<Case> {
         .collect()
 }
 
+// ---------------------------------------------------------------- long prefixes with a known first candidate
+
+/// Prefixes of 4..42 digits cannot be found by search, but the shim makes the FIRST candidate known: its
+/// reference address gives a prefix of any length that must match at once, and a near miss (last digit
+/// changed, or more digits than an address has) that must not match. `GE_FAIL_FROM=1` ends the search after
+/// the first candidate, so "no match" shows as an ordinary error instead of an endless search.
+#[derive(Clone, Debug, Serialize, Deserialize)]
+pub struct LongPrefixCase {
+    pub ge_seed: u64,
+    pub words: usize,
+    pub threads: usize,
+    /// digits after 0x, as typed
+    pub digits: String,
+    /// whether the first candidate's address starts with these digits (decided by the reference)
+    pub matches: bool,
+}
+
+fn gen_long_prefixes(seed: u64, per_len: usize) -> Vec<LongPrefixCase> {
+    let mut p = Prng::new(seed);
+    let mut out = vec![];
+    for d in [1usize, 2, 3, 4, 5, 8, 15, 16, 17, 18, 19, 20, 31, 32, 33, 39, 40, 41, 42] {
+        for k in 0..per_len {
+            let ge_seed = p.next_u64() >> 1;
+            let words = [12usize, 15, 18, 21, 24][(d + k) % 5];
+            let ent = shim_block(ge_seed, 0, words * 4 / 3);
+            let Some(addr) = reference_address(&ent, "", &bip32::default_path(0)) else { continue };
+            let hex = hex_lower(&addr);
+            let threads = [0usize, 1, 2][(d + k) % 3];
+            let style = |s: &str, p: &mut Prng| -> String {
+                match p.below(3) {
+                    0 => s.to_string(),
+                    1 => s.to_uppercase(),
+                    _ => s.chars().map(|c| if p.below(2) == 0 { c.to_ascii_uppercase() } else { c }).collect(),
+                }
+            };
+            if d <= 40 {
+                out.push(LongPrefixCase { ge_seed, words, threads, digits: style(&hex[..d], &mut p), matches: true });
+                // near miss: last digit changed
+                let mut miss: Vec<u8> = hex[..d].as_bytes().to_vec();
+                let last = miss[d - 1];
+                miss[d - 1] = if last == b'f' { b'0' } else if last == b'9' { b'a' } else { last + 1 };
+                out.push(LongPrefixCase { ge_seed, words, threads, digits: style(std::str::from_utf8(&miss).unwrap(), &mut p), matches: false });
+                // near miss: a digit in the middle changed (for d >= 3)
+                if d >= 3 {
+                    let mut miss: Vec<u8> = hex[..d].as_bytes().to_vec();
+                    let i = d / 2;
+                    miss[i] = if miss[i] == b'0' { b'1' } else { b'0' };
+                    out.push(LongPrefixCase { ge_seed, words, threads, digits: String::from_utf8(miss).unwrap(), matches: false });
+                }
+            } else {
+                // more digits than an address has: can never match
+                out.push(LongPrefixCase { ge_seed, words, threads, digits: format!("{hex}{}", "0".repeat(d - 40)), matches: false });
+            }
+        }
+    }
+    out
+}
+
+fn judge_long_prefix(c: &LongPrefixCase, cls: &mut Classifier) -> Verdict {
+    let env = ENV.get().expect("C18 environment is initialised before any judge runs");
+    let Some(shim) = &env.shim else { return fail("getentropy shim", "not built", "case needs the LD_PRELOAD shim") };
+    let Some(ent_len) = bip39::entropy_len(c.words) else { return fail("supported length", c.words.to_string(), "bad replay case") };
+    let ent = shim_block(c.ge_seed, 0, ent_len);
+    let Some(addr) = reference_address(&ent, "", &bip32::default_path(0)) else { return fail("reference address", "none", "bad replay case") };
+    let hex = hex_lower(&addr);
+    let really = c.digits.len() <= 40 && hex.starts_with(&c.digits.to_lowercase());
+    if really != c.matches {
+        return fail(format!("matches = {really}"), format!("matches = {}", c.matches), "bad replay case: reference disagrees with the stored expectation");
+    }
+    let log = cli::temp_file(&env.root, b"");
+    let inv = Invocation::new(&["new", "--vanity-prefix"])
+        .arg(format!("0x{}", c.digits))
+        .arg("-n")
+        .arg(c.words.to_string())
+        .arg("-j")
+        .arg(c.threads.to_string())
+        .env("LD_PRELOAD", shim.display().to_string())
+        .env("GE_LOG", log.display().to_string())
+        .env("GE_SEED", c.ge_seed.to_string())
+        .env("GE_FAIL_FROM", "1");
+    let out = cli::run(&env.cli, &inv, Duration::from_secs(60));
+    let _ = std::fs::remove_file(&log);
+    if out.timed_out {
+        TIMEOUTS.lock().unwrap().push(format!("long-prefix 0x{}", c.digits));
+        return Ok(());
+    }
+    let what = format!("`new --vanity-prefix 0x{} -n {} -j {}` with a known first candidate (address 0x{hex}) and no further entropy", c.digits, c.words, c.threads);
+    if out.panicked() {
+        return fail("a phrase or an ordinary error", out.describe(), format!("{what}: panic / abnormal end"));
+    }
+    if c.matches {
+        let want = format!("{}\n", bip39::encode_phrase(&ent));
+        if !out.ok() || out.stdout_str() != want {
+            return fail(want, out.describe(), format!("{what}: the first candidate's address begins with the requested {} digits, so it must be printed", c.digits.len()));
+        }
+        cls.label("long-prefix:matched");
+    } else {
+        if !out.ordinary_error() || !out.stdout.is_empty() {
+            return fail("ordinary error with empty stdout (the only candidate does not have the prefix)", out.describe(), format!("{what}: a phrase was printed although its address does not begin with the requested digits"));
+        }
+        cls.label("long-prefix:no-match");
+    }
+    cls.label(&format!("long-prefix:digits-{}", match c.digits.len() { 0..=3 => "1-3", 4..=16 => "4-16", 17..=40 => "17-40", _ => ">40" }));
+    cls.nontrivial(&(c.ge_seed, c.digits.as_str(), c.threads));
+    cls.sample("long-prefix", || json!({"args": inv.args, "first_candidate_address": hex, "matches": c.matches}));
+    Ok(())
+}
+
 pub fn run(ctx: &mut Ctx) {
-    ctx.rule = "Subject: the executable, `hdwallet new --vanity-prefix 0x<digits> [-n L] [-j N] [--vanity-password P] [--vanity-account-index I | --vanity-hd-path PATH]`, run under an LD_PRELOAD getentropy shim that delivers a seeded, logged byte stream. Generator: (single-digit) all 16 lower-case digits and the 6 upper-case letters x -j {0,1,2,16}, exhaustively; (search) stratified configurations of 1-2 digit prefixes in lower/upper/mixed case x -j {0,1,2} x selector {none, password, index, path, password+index, password+path} x -n {12,15,18,21,24,omitted}, each repeated with different shim seeds; (wide) 2- and 3-digit prefixes at -j 16 / -j omitted, run one at a time, repeated with different seeds so that a different worker wins; two thirds of the seeded multi-thread runs add schedule perturbation (GE_JITTER_US: the shim delays every entropy request by a pseudo-random time scaled by a per-thread slowness factor, so which worker finishes first varies); thorough adds runs on real OS entropy (logged and without any shim) and the plain release build; (refusal) 0x followed by 1-3 characters of which at least one is not a hex digit (fixed list incl. full-width and Arabic-Indic digits, neighbours of the hex ranges, generated ASCII/non-ASCII). Oracle (schedule-independent): exit 0 and exactly one stdout line that the reference BIP-39 decoder accepts with the requested word count; the reference chain entropy -> canonical phrase -> PBKDF2(phrase, 'mnemonic'+NFKD(password)) -> BIP-32 CKDpriv along m/44'/60'/0'/0/i or the given path -> secp256k1 k*G -> Keccak address must begin, in lower-case hex, with the lower-cased requested digits; with the shim the phrase's entropy must be one of the logged getentropy results. Non-hex prefix: error exit (255 or 2), empty stdout, no panic. For -j 0/1 the first matching block of the seeded stream is predicted and compared (recorded as a class, never reported: the property does not promise first-match). Non-trivial: prefix contains a letter digit, or has >= 2 digits, or a password/index/path is given, or >= 2 threads; distinct by the whole model (prefix, -n, -j, password, selector, entropy source/seed, build).".into();
+    ctx.rule = "Subject: the executable, `hdwallet new --vanity-prefix 0x<digits> [-n L] [-j N] [--vanity-password P] [--vanity-account-index I | --vanity-hd-path PATH]`, run under an LD_PRELOAD getentropy shim that delivers a seeded, logged byte stream. Generator: (single-digit) all 16 lower-case digits and the 6 upper-case letters x -j {0,1,2,16}, exhaustively; (search) stratified configurations of 1-2 digit prefixes in lower/upper/mixed case x -j {0,1,2} x selector {none, password, index, path, password+index, password+path} x -n {12,15,18,21,24,omitted}, each repeated with different shim seeds; (wide) 2- and 3-digit prefixes at -j 16 / -j omitted, run one at a time, repeated with different seeds so that a different worker wins; two thirds of the seeded multi-thread runs add schedule perturbation (GE_JITTER_US: the shim delays every entropy request by a pseudo-random time scaled by a per-thread slowness factor, so which worker finishes first varies); thorough adds runs on real OS entropy (logged and without any shim) and the plain release build; (long-prefix) prefixes of 1..42 digits taken from (or one digit off) the reference address of the seeded stream's FIRST candidate, with GE_FAIL_FROM=1 so that the search ends after it: a true prefix of any length must print that candidate, a near miss or an over-long prefix must end in an error; (refusal) 0x followed by 1-3 characters of which at least one is not a hex digit (fixed list incl. full-width and Arabic-Indic digits, neighbours of the hex ranges, generated ASCII/non-ASCII). Oracle (schedule-independent): exit 0 and exactly one stdout line that the reference BIP-39 decoder accepts with the requested word count; the reference chain entropy -> canonical phrase -> PBKDF2(phrase, 'mnemonic'+NFKD(password)) -> BIP-32 CKDpriv along m/44'/60'/0'/0/i or the given path -> secp256k1 k*G -> Keccak address must begin, in lower-case hex, with the lower-cased requested digits; with the shim the phrase's entropy must be one of the logged getentropy results. Non-hex prefix: error exit (255 or 2), empty stdout, no panic. For -j 0/1 the first matching block of the seeded stream is predicted and compared (recorded as a class, never reported: the property does not promise first-match). Non-trivial: prefix contains a letter digit, or has >= 2 digits, or a password/index/path is given, or >= 2 threads; distinct by the whole model (prefix, -n, -j, password, selector, entropy source/seed, build).".into();
     ctx.assumptions = vec![
         "prefixes without 0x and the empty prefix 0x are unspecified: run, counted, only checked for 'no panic'".into(),
         "a successful search is required for every hexadecimal prefix with a valid length and selector (an error exit is reported), since nothing in such an input can be refused".into(),
@@ -862,6 +970,14 @@ pub fn run(ctx: &mut Ctx) {
         })
         .collect();
     run_list(ctx, "wide", &wide3, true);
+
+    // long prefixes (4..42 digits) decided on a known first candidate
+    let lp = gen_long_prefixes(ctx.sub_seed("long-prefix", 0), ctx.tier.pick(2, 12));
+    ctx.run_cases("long-prefix", &lp, judge_long_prefix);
+    drain_timeouts(ctx);
+    ctx.floor_abs("long-prefix:matched", 30);
+    ctx.floor_abs("long-prefix:no-match", 50);
+    ctx.floor_abs("long-prefix:digits-17-40", 20);
 
     // (d) refusal clause and unspecified spellings
     let refusals = gen_refusals(ctx.sub_seed("refusal", 0), ctx.tier.pick(30, 600));
@@ -952,6 +1068,7 @@ fn replay_inner(sub: &str, case: &Value) -> Option<Verdict> {
             replay_as::<Case>(case, judge_search)
         }
         "refusal" => replay_as::<RefusalCase>(case, judge_refusal),
+        "long-prefix" => replay_as::<LongPrefixCase>(case, judge_long_prefix),
         _ => return None,
     };
     Some(v)
